@@ -326,6 +326,9 @@ LIFO_STATIC_INLINE parsec_list_item_t* parsec_lifo_pop( parsec_lifo_t* lifo )
 
         old_head.data.guard.counter = lifo->lifo_head.data.guard.counter;
         parsec_atomic_rmb ();
+#if defined(PARSEC_VERIF)
+        PARSEC_VERIF_YIELD(PARSEC_VERIF_SITE_LIFO);
+#endif
         item = old_head.data.item = lifo->lifo_head.data.item;
 
         if (item == NULL) {
@@ -352,6 +355,9 @@ LIFO_STATIC_INLINE parsec_list_item_t* parsec_lifo_try_pop( parsec_lifo_t* lifo 
 
     old_head.data.guard.counter = lifo->lifo_head.data.guard.counter;
     parsec_atomic_rmb();
+#if defined(PARSEC_VERIF)
+    PARSEC_VERIF_YIELD(PARSEC_VERIF_SITE_LIFO);
+#endif
     item = old_head.data.item = lifo->lifo_head.data.item;
 
     if (item == NULL) {
